@@ -58,9 +58,13 @@ type sessionOut struct {
 }
 
 // runInteractive runs one interactive pprof session over lines.
+// sessionNoDot makes the next sessions run without graphviz installed (the
+// same for a history and for its fresh-session references).
+var sessionNoDot bool
+
 func runInteractive(x *xctx, cfg simrt.Config, prof []byte, flags []string, lines []string, perLine func(i int)) sessionOut {
 	simos.PutFile("/sim/cwd/prof.pb.gz", prof)
-	installTools(true)
+	installTools(!sessionNoDot)
 	installSources()
 	var marks []int
 	ui := &simUI{lines: lines}
